@@ -1,3 +1,291 @@
 // Kani harnesses (child module of crates/axmos-db/src/io/cache.rs).  See /verif/HARNESS_GUIDE.md
+// C12.cache_step: one `evict` on a full PageCache of capacity 2, one `insert` into a cache with room, one
+// `remove` from a cache of 2 -- frames with symbolic pin states, eviction cursor symbolic or enumerated.
+//
+// Cost notes (measured): the IndexMap inside PageCache is the whole cost.  hashbrown's SSE2 group operations do not
+// constant-fold in CBMC, so every probe loop is unrolled up to the harness unwind bound even for concrete keys:
+// 2 inserts + 2 gets on IndexMap<u64,u64> = 92 s at unwind 3, > 300 s at unwind 6.  Therefore: page ids are
+// concrete, the IndexMap gets a fixed hasher state (RandomState::new() reaches getrandom), presence is checked by
+// scanning the entries by index (no hashing), the unwind bound is the smallest one the evict loop allows, and the
+// harnesses that build a 2-frame cache are tier=thorough (200-430 s each).  z3 cannot be used here (CBMC exits with
+// status 6 or z3 never returns).
 #![allow(unused_imports, dead_code, clippy::all)]
 use super::*;
+use crate::multithreading::frames::Frame;
+use crate::storage::core::buffer::MemBlock;
+use crate::storage::page::{OverflowPage, OverflowPageHeader};
+use std::collections::hash_map::RandomState;
+
+fn fixed_state() -> RandomState {
+    // RandomState is two u64 SipHash keys; any fixed key is a legal state
+    unsafe { std::mem::transmute::<[u64; 2], RandomState>([0, 0]) }
+}
+const NEW_ID: PageId = 77;
+fn old_id(i: usize) -> PageId {
+    10 * (i as u64 + 1)
+}
+/// a frame for page `id` (64-byte overflow page: the cache never looks at the content)
+fn mk_frame(id: PageId) -> MemFrame {
+    let mut p: OverflowPage = MemBlock::new(64);
+    p.metadata_mut().page_number = id;
+    MemFrame::Overflow(Frame::new(p))
+}
+/// "pinned" = somebody outside the cache holds another handle to the frame (Frame::is_free looks at the Arc count)
+fn pin(f: &MemFrame) {
+    std::mem::forget(f.clone());
+}
+/// full cache: frames old_id(0..N) at map indices 0..N, pin state per frame, eviction cursor as given
+fn mk_cache<const N: usize>(pins: &[bool; N], cursor: usize) -> PageCache {
+    let mut frames: IndexMap<PageId, MemFrame> = IndexMap::with_capacity_and_hasher(N + 1, fixed_state());
+    let mut i = 0;
+    while i < N {
+        let f = mk_frame(old_id(i));
+        if pins[i] {
+            pin(&f);
+        }
+        std::mem::forget(frames.insert(old_id(i), f));
+        i += 1;
+    }
+    PageCache { capacity: N, frames, cursor, stats: MemoryStats::default() }
+}
+/// is a frame for page `id` stored under key `id`?  (scan of the first `n` entries by index; no hashing)
+fn has_key(c: &PageCache, id: PageId, n: usize) -> bool {
+    let mut i = 0;
+    while i < n {
+        if let Some((k, f)) = c.frames.get_index(i) {
+            if *k == id && f.page_number() == id {
+                return true;
+            }
+        }
+        i += 1;
+    }
+    false
+}
+/// symbolic pre-state; `stale` selects the region where some frame is evictable but every evictable frame sits
+/// BELOW the cursor (the pinned tree never rewinds the cursor); !stale = the complement.  Returns (pins, cursor, any_free)
+fn pre_state<const N: usize>(stale: bool, clo: usize, chi: usize) -> ([bool; N], usize, bool) {
+    let pins: [bool; N] = kani::any();
+    let cursor: usize = if clo == chi { clo } else { kani::any() };
+    kani::assume(cursor >= clo && cursor <= chi); // evict() never moves the cursor past len + 1
+    let mut any_free = false;
+    let mut free_at_or_after_cursor = false;
+    let mut i = 0;
+    while i < N {
+        if !pins[i] {
+            any_free = true;
+            if i >= cursor {
+                free_at_or_after_cursor = true;
+            }
+        }
+        i += 1;
+    }
+    kani::assume((any_free && !free_at_or_after_cursor) == stale);
+    (pins, cursor, any_free)
+}
+/// laws (b) and (c) for a victim handed out by evict/insert; `n` = entries to scan
+fn victim_laws<const N: usize>(cache: &PageCache, v: &MemFrame, pins: &[bool; N], n: usize) {
+    let vid = v.page_number();
+    let mut k = N;
+    let mut i = 0;
+    while i < N {
+        if vid == old_id(i) {
+            k = i;
+        }
+        i += 1;
+    }
+    assert!(k < N, "evicted_was_cached");
+    if k < N {
+        assert!(!pins[k], "evicted_was_unpinned");
+    }
+    assert!(v.is_free(), "evicted_has_no_other_holder");
+    let mut i = 0;
+    while i < N {
+        if i == k {
+            assert!(!has_key(cache, old_id(i), n), "evicted_no_longer_cached");
+        } else {
+            assert!(has_key(cache, old_id(i), n), "others_still_cached");
+        }
+        i += 1;
+    }
+}
+fn all_kept<const N: usize>(cache: &PageCache, n: usize) -> bool {
+    let mut ok = true;
+    let mut i = 0;
+    while i < N {
+        if !has_key(cache, old_id(i), n) {
+            ok = false;
+        }
+        i += 1;
+    }
+    ok
+}
+
+// ---- evict on a full cache of N frames ---------------------------------------------------------------------------
+fn evict_step<const N: usize>(stale: bool, clo: usize, chi: usize) {
+    let (pins, cursor, any_free) = pre_state::<N>(stale, clo, chi);
+    let mut cache = mk_cache::<N>(&pins, cursor);
+    kani::cover!(true, "reach");
+    match cache.evict() {
+        Err(e) => {
+            std::mem::forget(e);
+            // (a) the out-of-memory error is only permitted when the cache cannot hold the operation
+            assert!(!any_free, "oom_only_if_no_frame_evictable");
+            assert!(all_kept::<N>(&cache, N), "oom_keeps_all_frames");
+        }
+        Ok(None) => {
+            assert!(all_kept::<N>(&cache, N), "no_eviction_keeps_all_frames");
+        }
+        Ok(Some(v)) => {
+            victim_laws::<N>(&cache, &v, &pins, N);
+            std::mem::forget(v);
+        }
+    }
+    std::mem::forget(cache);
+}
+// @obl harness=c12_cache_evict_2_c0 id=C12.cache_step[evict/cap2/cursor0] tier=thorough funcs="PageCache::evict" bounds="full cache of 2 frames (concrete page ids), symbolic pin flags, cursor = 0" unwind=4
+#[kani::proof]
+#[kani::unwind(4)]
+fn c12_cache_evict_2_c0() {
+    evict_step::<2>(false, 0, 0);
+}
+// @obl harness=c12_cache_evict_2_c1 id=C12.cache_step[evict/cap2/cursor1] tier=thorough funcs="PageCache::evict" bounds="full cache of 2 frames, symbolic pin flags, cursor = 1" assume="NOT(some frame unpinned and all unpinned frames below the cursor)" unwind=3
+#[kani::proof]
+#[kani::unwind(3)]
+fn c12_cache_evict_2_c1() {
+    evict_step::<2>(false, 1, 1);
+}
+// @obl harness=c12_cache_evict_2_c23 id=C12.cache_step[evict/cap2/cursor2-3] tier=thorough funcs="PageCache::evict" bounds="full cache of 2 frames, symbolic pin flags, symbolic cursor in 2..=3 (= len, len+1)" assume="NOT(some frame unpinned and all unpinned frames below the cursor)" unwind=3
+#[kani::proof]
+#[kani::unwind(3)]
+fn c12_cache_evict_2_c23() {
+    evict_step::<2>(false, 2, 3);
+}
+// @obl harness=c12_cache_evict_2_stale id=C12.cache_step[evict/cap2/stale_cursor] tier=thorough funcs="PageCache::evict" bounds="full cache of 2 frames, symbolic pin flags, symbolic cursor in 1..=3" assume="some frame unpinned and all unpinned frames below the cursor (region where the pinned tree reports OutOfMemory)" unwind=3
+#[kani::proof]
+#[kani::unwind(3)]
+fn c12_cache_evict_2_stale() {
+    evict_step::<2>(true, 1, 3);
+}
+
+// @obl harness=c12_cache_evict_1 id=C12.cache_step[evict/cap1] tier=thorough funcs="PageCache::evict" bounds="full cache of 1 frame, symbolic pin flag, symbolic cursor in 0..=2" assume="NOT(frame unpinned and cursor >= 1)" unwind=3
+#[kani::proof]
+#[kani::unwind(3)]
+fn c12_cache_evict_1() {
+    evict_step::<1>(false, 0, 2);
+}
+
+// ---- insert ---------------------------------------------------------------------------------------------------------
+// `insert` into a FULL cache = contains_key + evict + IndexMap::insert.  Whenever the eviction really happens
+// (swap_remove_index + insert in one harness) this does not fit even for capacity 1 and a concrete cursor: 490-570 s,
+// then the 16 GB memory limit (CBMC solver error / exit 6).  Kept: the cases of a full capacity-1 cache where evict
+// finds nothing (cursor = 1: pinned -> legitimate OOM; unpinned -> the stale-cursor OOM), and insert with room.
+// The evicting case is covered as `evict` alone (above) + insert's glue `if capacity <= len { self.evict()? }`.
+fn insert_step<const N: usize>(stale: bool, clo: usize, chi: usize) {
+    let (pins, cursor, any_free) = pre_state::<N>(stale, clo, chi);
+    let mut cache = mk_cache::<N>(&pins, cursor);
+    let newf = mk_frame(NEW_ID);
+    kani::cover!(true, "reach");
+    match cache.insert(newf) {
+        Err(e) => {
+            std::mem::forget(e);
+            assert!(!any_free, "oom_only_if_no_frame_evictable");
+            assert!(all_kept::<N>(&cache, N + 1), "oom_keeps_all_frames");
+        }
+        Ok(None) => {
+            assert!(all_kept::<N>(&cache, N + 1), "no_eviction_keeps_all_frames");
+            assert!(has_key(&cache, NEW_ID, N + 1), "new_frame_cached");
+        }
+        Ok(Some(v)) => {
+            victim_laws::<N>(&cache, &v, &pins, N + 1);
+            assert!(has_key(&cache, NEW_ID, N + 1), "new_frame_cached");
+            std::mem::forget(v);
+        }
+    }
+    std::mem::forget(cache);
+}
+// @obl harness=c12_cache_insert_1_c1 id=C12.cache_step[insert/cap1/cursor1] tier=thorough funcs="PageCache::insert,PageCache::evict" bounds="full cache of capacity 1, frame pinned, cursor = 1" assume="NOT(frame unpinned and cursor >= 1)" unwind=3
+#[kani::proof]
+#[kani::unwind(3)]
+fn c12_cache_insert_1_c1() {
+    insert_step::<1>(false, 1, 1);
+}
+// @obl harness=c12_cache_insert_1_stale id=C12.cache_step[insert/cap1/stale_cursor] tier=thorough funcs="PageCache::insert,PageCache::evict" bounds="full cache of capacity 1, frame unpinned, cursor = 1" assume="frame unpinned and cursor = 1 (region where the pinned tree reports OutOfMemory)" unwind=3
+#[kani::proof]
+#[kani::unwind(3)]
+fn c12_cache_insert_1_stale() {
+    insert_step::<1>(true, 1, 1);
+}
+// One harness for insert's own glue (no eviction needed): capacity 2 holding 1 frame.
+// @obl harness=c12_cache_insert_room id=C12.cache_step[insert/room] tier=thorough funcs="PageCache::insert" bounds="cache of capacity 2 holding 1 frame (concrete id), symbolic pin flag, symbolic cursor in 0..=2; insert of a new concrete id" unwind=3
+#[kani::proof]
+#[kani::unwind(3)]
+fn c12_cache_insert_room() {
+    let pins: [bool; 1] = kani::any();
+    let cursor: usize = kani::any();
+    kani::assume(cursor <= 2);
+    let mut cache = mk_cache::<1>(&pins, cursor);
+    cache.capacity = 2;
+    let newf = mk_frame(NEW_ID);
+    kani::cover!(true, "reach");
+    match cache.insert(newf) {
+        Err(e) => {
+            std::mem::forget(e);
+            assert!(false, "no_oom_when_cache_has_room");
+        }
+        Ok(None) => {
+            assert!(has_key(&cache, old_id(0), 2), "no_eviction_keeps_all_frames");
+            assert!(has_key(&cache, NEW_ID, 2), "new_frame_cached");
+        }
+        Ok(Some(v)) => {
+            victim_laws::<1>(&cache, &v, &pins, 2);
+            assert!(has_key(&cache, NEW_ID, 2), "new_frame_cached");
+            std::mem::forget(v);
+        }
+    }
+    std::mem::forget(cache);
+}
+
+// ---- (d) remove(id) ------------------------------------------------------------------------------------------------
+/// remove the frame at map index `t` (concrete, so the key hashes concretely); `target_pinned` = region
+fn remove_at<const N: usize>(t: usize, target_pinned: bool) {
+    let pins: [bool; N] = kani::any();
+    let cursor: usize = kani::any();
+    kani::assume(cursor <= N + 1);
+    kani::assume(pins[t] == target_pinned);
+    let mut cache = mk_cache::<N>(&pins, cursor);
+    kani::cover!(true, "reach");
+    let r = cache.remove(old_id(t));
+    match &r {
+        Some(f) => {
+            assert!(f.page_number() == old_id(t), "remove_returns_requested_frame");
+            assert!(!pins[t], "remove_hands_out_only_unpinned_frame");
+            assert!(!has_key(&cache, old_id(t), N), "removed_no_longer_cached");
+        }
+        None => {
+            // nothing handed out: the frame (pinned by someone who may still write to it) must stay cached
+            assert!(pins[t], "remove_of_unpinned_returns_it");
+            assert!(has_key(&cache, old_id(t), N), "remove_keeps_pinned_frame_cached");
+        }
+    }
+    let mut i = 0;
+    while i < N {
+        if i != t {
+            assert!(has_key(&cache, old_id(i), N), "remove_keeps_other_frames");
+        }
+        i += 1;
+    }
+    std::mem::forget(r);
+    std::mem::forget(cache);
+}
+// @obl harness=c12_cache_remove_free id=C12.cache_step[remove/unpinned] tier=thorough funcs="PageCache::remove" bounds="cache of 2 frames (concrete ids), symbolic pin flags and cursor, target = first cached id (swap_remove moves the last entry into the hole)" assume="target frame is unpinned" unwind=3
+#[kani::proof]
+#[kani::unwind(3)]
+fn c12_cache_remove_free() {
+    remove_at::<2>(0, false);
+}
+// @obl harness=c12_cache_remove_pinned id=C12.cache_step[remove/pinned] tier=off funcs="PageCache::remove" bounds="cache of 2 frames (concrete ids), symbolic pin flags and cursor, target = first cached id" assume="target frame is pinned (region where the pinned tree drops it from the map)" unwind=3
+#[kani::proof]
+#[kani::unwind(3)]
+fn c12_cache_remove_pinned() {
+    remove_at::<2>(0, true);
+}
